@@ -291,6 +291,72 @@ def gen_inputs(rng, d, v, bound, nrandom, maxlen):
 
 
 # ---------------------------------------------------------------------------
+# the direct stream: word graphs handed to rime::Poet::MakeSentence and to the modelled Poet
+# ---------------------------------------------------------------------------
+
+K_PENALTY = -18.420680743952367        # gear/grammar.h  kPenalty (log 1e-8)
+K_S = 18.420680743952367               # dict/dictionary.cc  kS (log 1e8), subtracted by DictEntryIterator::Peek
+EPS = 1 << 76                          # 2^-20 at scale 2^96: the margin below which a decision counts as a near tie
+POET_TEXTS = [chr(c) for c in range(ord("A"), ord("M"))]
+
+
+def gen_poet_case(rng, ident):
+    """one word graph.  Weights are k/4 (exactly representable; with the test grammar every sum is exact in double; without
+    a grammar kPenalty - a full-mantissa double - is added per word and the sums round, which is why decisions closer than
+    EPS are judged as sets).  Aimed at: competing segmentations, exact ties (equal weights everywhere: identical operation
+    sequences, so the tie is a tie of the doubles too), edges without entries (states created empty), ends reached by the
+    single word only, unreachable ends, more than seven lines in one BeamSearch state, one last word reached over several
+    paths."""
+    total = rng.choice([0, 1, 2, 3, 3, 4, 4, 5, 5, 6, 6, 7, 8])
+    recipe = rng.choice(["distinct", "distinct", "distinct", "equal", "few", "wide"])
+    gram = 1 if rng.random() < .4 else 0
+    cmpf = rng.choice("wl")
+    span = rng.choice([2, 3, 4])
+    starts = [s for s in range(0, total + 1) if s == 0 and rng.random() < .95 or s and rng.random() < .8]
+    graph, nid = [], 0
+    shape = {"empty_edges": 0, "entries": 0}
+    for s in starts:
+        ends = []
+        for e in range(s + 1, min(total + 1, s + span) + 1):
+            if rng.random() < (.75 if recipe != "wide" else .95):
+                r = rng.random()
+                k = 0 if r < .08 else rng.choice([1, 1, 2, 3] if recipe != "wide" else [3, 4, 5])
+                ents = []
+                for _ in range(k):
+                    nid += 1
+                    w = {"distinct": rng.randint(-80, 0), "wide": rng.randint(-80, 0), "equal": -8,
+                         "few": rng.choice([-4, -8, -12])}[recipe]
+                    ents.append((rng.choice(POET_TEXTS if recipe == "wide" else POET_TEXTS[:5]), nid, Fraction(w, 4)))
+                shape["empty_edges"] += not ents
+                shape["entries"] += len(ents)
+                ends.append((e, ents))
+        if ends:
+            graph.append((s, ends))
+    return dict(cmp=cmpf, gram=gram, total=total, prec=rng.choice(["", "", "Q"]), graph=graph, recipe=recipe, shape=shape)
+
+
+def poet_graph_str(case, fmt_w):
+    return ";".join("%d=%s" % (s, "|".join("%d/%s" % (e, ",".join("%s:%d:%s" % (hx(t), i, fmt_w(w)) for t, i, w in ents) or "-")
+                                          for e, ents in ends)) for s, ends in case["graph"]) or "-"
+
+
+def poet_impl_line(case):
+    return "G %s %d %d %s %s" % (case["cmp"], case["gram"], case["total"], hx(case["prec"]),
+                                 poet_graph_str(case, lambda w: "%.2f" % float(w)))
+
+
+def poet_model_line(case, observed):
+    eps = 1 if case["gram"] else EPS
+    orc = "-" if observed in ("none", "sent -") else observed[5:]
+    return "G %s %d %d %s %s %s %s" % (case["cmp"], case["gram"], case["total"], hx(case["prec"]),
+                                       poet_graph_str(case, lambda w: zhex(scaled(w))), zhex(eps), orc)
+
+
+def zparse(h):
+    return None if h == "-" else (-int(h[1:], 16) if h.startswith("-") else int(h, 16))
+
+
+# ---------------------------------------------------------------------------
 # workspace (deployed by the real rime_deployer of the asan build), cached by content
 # ---------------------------------------------------------------------------
 
@@ -806,6 +872,77 @@ ASSUMPTIONS = [
 ]
 
 
+POET_HARNESS = os.path.join(vlib.VERIF, "harness", "c07", "poet.cc")
+
+
+def run_poet_direct(ctx, rmodel, b):
+    """rime::Poet::MakeSentence (both strategies, both comparisons) against the modelled Poet on generated word graphs"""
+    exe = vlib.cxx_build(os.path.join(vlib.WORK, "bin", "c07poet"), [POET_HARNESS], flags="-I%s/src" % b,
+                         libs="-L%s/lib -lrime -lglog -Wl,-rpath,%s/lib" % (b, b))
+    rng = random.Random(ctx.seed * 104729 + (3 if ctx.tier == "quick" else 4))
+    n = 6000 if ctx.tier == "quick" else 80000
+    cases = [gen_poet_case(rng, i) for i in range(n)]
+    work = ctx.scratch("c07poet")
+    casefile = os.path.join(work, "graphs.txt")
+    with open(casefile, "w") as f:
+        f.write("\n".join(poet_impl_line(c) for c in cases) + "\n")
+    rc, out, err = vlib.sh2([exe, casefile], timeout=1200,
+                            env={"ASAN_OPTIONS": "detect_leaks=0:abort_on_error=0", "UBSAN_OPTIONS": "print_stacktrace=1"})
+    impl = [l for l in out.split("\n") if l]
+    if rc != 0 or len(impl) != n:
+        ctx.violation("harness-abort:poet", "the Poet harness ended abnormally (sanitizer report or crash) rc=%d" % rc,
+                      {"stderr": err[-6000:], "cases_done": len(impl), "cases_expected": n,
+                       "last_case": poet_impl_line(cases[min(len(impl), n - 1)])}, found_input=True)
+        return None, []
+    feed = ["P %s %s" % (zhex(scaled(Fraction(K_PENALTY))), zhex(EPS))] + [poet_model_line(c, o) for c, o in zip(cases, impl)]
+    rc2, mout, merr = vlib.sh2([rmodel], stdin="\n".join(feed) + "\n", timeout=1200)
+    mod = [l for l in mout.split("\n") if l]
+    if rc2 != 0 or len(mod) != n:
+        ctx.violation("model-run:poet", "the extracted model did not answer every word graph", {"rc": rc2, "stderr": merr[-2000:],
+                      "lines": len(mod), "cases": n}, found_input=False)
+        return None, []
+    st = {"graphs": n, "dynamic_programming": 0, "beam_search": 0, "compare_weight": 0, "left_associate_compare": 0,
+          "sentence": 0, "no_sentence": 0, "compared_exactly": 0, "near_ties_judged_as_sets": 0,
+          "exact_ties_decided_by_order_or_word_lengths": 0, "graphs_with_an_edge_without_entries": 0,
+          "sentences_not_starting_at_0": 0, "sentences_of_3_or_more_words": 0, "recipes": {}}
+    bad, distinct = [], set()
+    for c, i, m in zip(cases, impl, mod):
+        body, _, fl = m.partition(" rob=")
+        f = dict(x.split("=") for x in ("rob=" + fl).split())
+        st["beam_search" if c["gram"] else "dynamic_programming"] += 1
+        st["left_associate_compare" if c["cmp"] == "l" else "compare_weight"] += 1
+        st["sentence" if i != "none" else "no_sentence"] += 1
+        st["recipes"][c["recipe"]] = st["recipes"].get(c["recipe"], 0) + 1
+        st["graphs_with_an_edge_without_entries"] += c["shape"]["empty_edges"] > 0
+        comps = [] if i in ("none", "sent -") else [x.split(":") for x in i[5:].split(",")]
+        st["sentences_of_3_or_more_words"] += len(comps) >= 3
+        if comps:
+            first = (int(comps[0][1]), int(comps[0][2]))
+            from0 = any(s == 0 and any(e == first[1] and any(idn == first[0] for _, idn, _ in ents) for e, ents in ends)
+                        for s, ends in c["graph"])
+            st["sentences_not_starting_at_0"] += not from0
+        if f["rob"] == "1":
+            st["compared_exactly"] += 1
+            st["exact_ties_decided_by_order_or_word_lengths"] += c["recipe"] == "equal" and len(comps) >= 2
+            if len(comps) >= 2:
+                distinct.add(i + "|" + poet_graph_str(c, str))
+            if body != i:
+                bad.append((c, i, m, "exact"))
+        else:
+            st["near_ties_judged_as_sets"] += 1
+            if (body == "none") != (i == "none"):
+                bad.append((c, i, m, "presence"))
+            elif comps:
+                mw, iw = zparse(f["mw"]), zparse(f["iw"])
+                # without a grammar the observed sentence must be a chain within the tolerance of the optimum; with one
+                # (BeamSearch prunes, ties are resolved by the hash map's order) only that it is a chain of entries
+                if iw is None or (not c["gram"] and iw < mw - 2 * (c["total"] + 1) * EPS):
+                    bad.append((c, i, m, "near-tie"))
+    st["distinct_graphs_with_a_sentence_compared_exactly"] = len(distinct)
+    st["mismatches"] = len(bad)
+    return st, bad
+
+
 def run(ctx):
     ctx.coverage["trusted_base"] = TRUSTED_BASE
     ctx.assumptions += ASSUMPTIONS
@@ -821,6 +958,7 @@ def run(ctx):
     b = vlib.librime_build("asan")
     exe = vlib.cxx_build(os.path.join(vlib.WORK, "bin", "c07"), [HARNESS], flags="-I%s/src" % b,
                          libs="-L%s/lib -lrime -lglog -Wl,-rpath,%s/lib" % (b, b))
+    poet_direct, poet_bad = run_poet_direct(ctx, rmodel, b)
     rng = random.Random(ctx.seed * 7919 + (1 if ctx.tier == "quick" else 2))
     dicts, schemas, files = make_plan(ctx, rng)
     ws = build_workspace(files, b)
@@ -843,7 +981,9 @@ def run(ctx):
                        "files": {k: files[k] for k in files if last and k.startswith(last[0].split("_")[0])}},
                       found_input=True)
     # --- model run
-    feed, index = [], []
+    # the modelled Poet adds [pen] per word: kPenalty of Grammar::Evaluate plus the -kS of DictEntryIterator::Peek that the
+    # model's d_w leaves out; both are doubles, exact at scale 2^96
+    feed, index = ["P %s %s" % (zhex(scaled(Fraction(K_PENALTY) - Fraction(K_S))), zhex(EPS))], []
     by_id = {sid: (d, v) for sid, d, v in schemas}
     for bk in blocks:
         if bk["opts"].get("ok") != "1":
@@ -866,11 +1006,33 @@ def run(ctx):
     if rc2 != 0 or len(mlines) != len(index):
         ctx.violation("model-run", "the extracted model did not answer every case", {"rc": rc2, "stderr": merr[-2000:],
                       "lines": len(mlines), "cases": len(index)}, found_input=False)
+    poet = {"poet_called": 0, "sentences_compared_exactly": 0, "no_sentence_agreed": 0, "near_ties_judged_as_sets": 0,
+            "sentences_of_3_or_more_words": 0, "script": 0, "table": 0}
+    near_tie_bad = []
     for (bk, case), ml in zip(index, mlines):
         flags, _, body = ml.partition(" | ")
-        mc = [x for x in body.split(";") if x]
+        body_m, _, body_o = body.partition(" || ")
         ic = [cand_key(c) if c["type"] != "NULL" else "NULL" for c in case["cands"]]
         fl = dict(x.split("=") for x in flags.split())
+        # the candidate list of the model with the MODELLED Poet; only where a decision of the dynamic programme is closer
+        # than EPS (double rounding could turn it) the list computed with the observed sentence fed back is compared
+        # instead and the observed sentence must be a chain whose exact weight is within the tolerance of the optimum
+        if fl.get("rob") == "0":
+            mc = [x for x in body_o.split(";") if x]
+            poet["near_ties_judged_as_sets"] += 1
+            mw, iw = zparse(fl.get("mw", "-")), zparse(fl.get("iw", "-"))
+            sent_i = any(c["type"] == "sentence" for c in case["cands"])
+            if (mw is None) != (not sent_i) or (sent_i and (iw is None or iw < mw - 2 * (len(case["input"]) + 1) * EPS)):
+                near_tie_bad.append((bk, case, flags))
+        else:
+            mc = [x for x in body_m.split(";") if x]
+        if fl.get("asked") == "1":
+            poet["poet_called"] += 1
+            poet[bk["opts"]["kind"]] += 1
+            if fl.get("rob") == "1":
+                sents = [c for c in case["cands"] if c["type"] == "sentence"]
+                poet["sentences_compared_exactly" if sents else "no_sentence_agreed"] += 1
+                poet["sentences_of_3_or_more_words"] += any(len(c["comps"]) >= 3 for c in sents)
         kind = bk["opts"]["kind"]
         stats[kind] += 1
         stats["candidates"] += len(ic)
@@ -947,6 +1109,9 @@ def run(ctx):
                      "candidates": [cand_key(c) for c in case["cands"][:6]]} for bk, case in index[7:len(index):max(1, len(index) // 6)]][:8],
         "exhaustive": False,
         "correspondence_mismatches": len(mism),
+        "poet_stream_translators": poet,
+        "poet_stream_direct": poet_direct,
+        "poet_near_tie_failures": len(near_tie_bad),
         "oracle_hypothesis_failures": len(oracle_bad),
         "property_failures_on_impl": len(fails),
         "out_of_domain_inputs": out_of_domain,
@@ -977,6 +1142,20 @@ def run(ctx):
         ctx.violation("correspondence:c07", "model and implementation disagree on the candidate list",
                       {"schema": bk["id"], "input": case["input"].decode("latin-1"), "model": mc, "impl": ic,
                        "mismatches": len(mism), "graph": case["graph"]}, found_input=False)
+    if poet_bad and not reported:
+        c, i, m, why = poet_bad[0]
+        ctx.violation("correspondence:poet", "rime::Poet::MakeSentence and the modelled Poet disagree on a word graph (%s)" % why,
+                      {"case": poet_impl_line(c), "strategy": "BeamSearch (test grammar registered)" if c["gram"] else "DynamicProgramming",
+                       "compare": "LeftAssociateCompare" if c["cmp"] == "l" else "CompareWeight", "impl": i, "model": m,
+                       "mismatches": len(poet_bad),
+                       "how": "harness/c07/poet.cc reads the case line (graph = start=end/texthex:id:weight,..|..;..) and prints the "
+                              "sentence of rime::Poet::MakeSentence as texthex:id:end,.."}, found_input=False)
+    if near_tie_bad and not reported:
+        bk, case, flags = near_tie_bad[0]
+        ctx.violation("correspondence:poet-near-tie", "a near tie of the sentence maker: the observed sentence is not a chain "
+                      "through the model's word graph within the tolerance of the optimal weight",
+                      {"schema": bk["id"], "input": case["input"].decode("latin-1"), "flags": flags,
+                       "candidates": [cand_key(c) for c in case["cands"]], "count": len(near_tie_bad)}, found_input=False)
     if oracle_bad and not reported:
         bk, case, flags = oracle_bad[0]
         ctx.violation("oracle:poet", "the sentence produced by Poet is not a chain through the model's word graph (or is missing/unexpected)",
